@@ -25,7 +25,7 @@ use std::time::Duration;
 const INTERVAL_S: u64 = 2;
 
 pub fn plan(p: &EpParams) -> Plan {
-    let n = if tier_thorough(p) { 20_000 } else { 1_600 };
+    let n = if tier_thorough(p) { 8_000 } else { 1_600 };
     Plan {
         episodes: n,
         exhaustive: false,
@@ -55,7 +55,12 @@ async fn episode(p: &EpParams) -> EpReport {
     let w = World::new(Transport::Direct, true, Some(rng.below(100))).await;
     let cx = Cx::new(&w, 0);
     let push_loop = tokio::spawn(w.app.push_loop(Duration::from_secs(INTERVAL_S)).run());
-    let eps = [Endpoint::start(&w, "/a").await.expect("endpoint"), Endpoint::start(&w, "/b").await.expect("endpoint")];
+    let (Ok(ea), Ok(eb)) = (Endpoint::start(&w, "/a").await, Endpoint::start(&w, "/b").await) else {
+        rep.inconclusive("could not bind a local endpoint");
+        push_loop.abort();
+        return rep;
+    };
+    let eps = [ea, eb];
     for e in &eps {
         e.set_fallback(Behaviour::Status(200));
     }
